@@ -138,7 +138,10 @@ pub fn render(s: &TypeSpec) -> Option<Rendered> {
     o.push_str("        o.check(got == exp, || format!(\"value {i} {{:#?}}: educe prints `{got}`, the builders print `{exp}`\"));\n");
     o.push_str("        let got = format!(\"{:>30?}|{:<3?}\", x, x);\n        let exp = format!(\"{:>30?}|{:<3?}\", OracleDbg(x), OracleDbg(x));\n");
     o.push_str("        o.check(got == exp, || format!(\"value {i} with width flags: educe prints `{got}`, the builders print `{exp}`\"));\n");
-    o.push_str("        o.tally(\"formatted\", 3);\n");
+    // hex, sign and precision flags travel through the builders to every field (and to custom methods through `f`)
+    o.push_str("        let got = format!(\"{:#06x?}|{:+.1?}\", x, x);\n        let exp = format!(\"{:#06x?}|{:+.1?}\", OracleDbg(x), OracleDbg(x));\n");
+    o.push_str("        o.check(got == exp, || format!(\"value {i} with hex / sign / precision flags: educe prints `{got}`, the builders print `{exp}`\"));\n");
+    o.push_str("        o.tally(\"formatted\", 4);\n");
     if plain {
         let tn = format!("{}Twin", s.name);
         o.push_str(&format!("        let std1 = format!(\"{{:?}}\", ts[i]).replace({:?}, {:?});\n", tn, s.name));
@@ -186,7 +189,7 @@ pub fn behaviour() -> Behaviour {
         prop: "C06",
         rule: "structs and enums with Debug educed: type-level name (default/false/custom, Debug = X shorthand), enum name = true, variant name, \
                named_field both ways on structs and variants, field ignore/name/rename/method, generic types; ordinary identifiers only; every value is \
-               formatted with {:?}, {:#?} and width flags and compared byte-for-byte with an oracle written with core::fmt's debug_struct / debug_tuple / \
+               formatted with {:?}, {:#?}, width, hex, sign and precision flags and compared byte-for-byte with an oracle written with core::fmt's debug_struct / debug_tuple / \
                debug_map / write_str for the effective shape; requests without any educe parameter are also compared with a #[derive(Debug)] twin; \
                non-trivial = a non-default name/named_field/rename/ignore/method somewhere, or the twin clause; distinct by definition hash",
         salt: 0xC06,
